@@ -16,6 +16,15 @@ PROPS = {
         "design_ref": "DESIGN.md section 7, C01",
         "assumptions": ["scalar operations are exact commutative-ring operations (rounding/overflow not modelled)", "division and remainder are uninterpreted per-element operations"],
     },
+    "C02": {
+        "claimed": True,
+        "technique": "Coq proof (computation, ring, case analysis on comparisons) over programs translated from the compiled generic code by symbolic execution",
+        "level_text": "3787 entry points: for each of the 13 vector types (dimensions 2..64) every arithmetic/bitwise/shift operator in its 9 owned/borrowed/scalar/compound-assignment forms (plus scalar-on-the-left add/mul, whose macro body is lifted verbatim from src/vec.rs), Neg/Not, the 8 MulAdd forms and the inherent mul_add with broadcast, sum/product/average/reduce/reduce_min/max/bit reductions/dot/magnitude_squared/iterator Sum and Product/sign tests, min/max/map/apply/zip families/hadd/sqrt..round, and 21 constructors, conversions and views are translated from the real code and proved in Coq, for ALL element values in ANY commutative ring with arbitrary division, remainder, bit, shift, min/max and comparison operations, to equal the dimension-generic per-element definition in element order. Comparison masks, partial_min/max and reduce_partial_min/max are proved on free symbols for all lanes at once up to 8 lanes (every one of the up to 256 outcome combinations) and one free lane at a time against a constant background for 16/32/64 lanes. Unit tests never compute a binary operator on distinct elements.",
+        "level_note": "Partial cells: for Vec16/32/64 the comparison-mask family is decided per lane (2^64 joint outcomes cannot be enumerated); reduce_partial_min/max are not translated for those three types; reduce_and/reduce_or/reduce_ne on the concrete bool/integer/float instantiations are not generic code and are outside the translation. Trusted: Coq kernel; symx translator (re-run from /repo on every check, self-checked against the same code on f64 where f64 has the trait); Rust parametricity in the scalar type. Theorems print 'Closed under the global context'.",
+        "design_ref": "DESIGN.md section 7, C02",
+        "assumptions": ["scalar operations are exact commutative-ring operations; division, remainder, bit operations, shifts, min/max, rounding functions are uninterpreted per-element operations", "comparisons are an arbitrary pair of boolean relations lt/eq with <=, >=, >, != derived as for a total order (no NaN)", "user closures are arbitrary pure functions"],
+        "selfcheck": {"quick": 20, "thorough": 300},
+    },
     "C03": {
         "claimed": True,
         "technique": "Coq proof (computation + induction over operation sequences) over programs translated from the compiled generic code by symbolic execution",
